@@ -35,11 +35,33 @@ ASSUMPTIONS = [
     "equality is the library's __eq__ where defined; for classes without __eq__ the constructor "
     "fields of the table are compared one by one (and re-encoded bytes always)",
     "in the backward direction a decoder rejection (any exception, or trailing bytes) is not judged",
+    "domain restrictions (not probed): under KMIP 2.0, values that the library converts to an "
+    "Attributes structure carry no attribute index, no template names, no custom (x-) attributes "
+    "and no Operation Policy Name (KMIP 2.0 has none of these; the writer refuses or drops them); "
+    "attribute names are those for which the library has a value class; KeyValue holds byte-string "
+    "key material (the constructor rejects KeyMaterialStruct); no message extensions; "
+    "DateTime/TimeStamp values are always given (None means 'now')",
+    "while the confirmed TextString padding defect is present (self-probe), backward cases whose "
+    "bytes contain a TextString of length 0 mod 8 are skipped and counted (their second decode "
+    "fails for that reason alone)",
 ]
 SHRINK_BUDGET = 150
 
-_TAGREPR = re.compile(r"Tags\.[A-Z0-9_]+")
-_ENUMREPR = re.compile(r"<[A-Za-z]+\.[A-Z0-9_]+: ?N>")
+# message normalisation (own copy so that bucket keys do not move when shared code changes)
+_N_ENUMREPR = re.compile(r"<\w+\.\w+: [^>]*>")
+_N_ENUMNAME = re.compile(r"\b[A-Z]\w*\.[A-Z][A-Z_0-9a-z]*\b")
+_N_BRLIST = re.compile(r"\[[^\]]*\]")
+_N_HEXRUN = re.compile(r"\b[0-9a-fA-F]{8,}\b")
+_N_QUOTED = re.compile(r"'[^']*'|\"[^\"]*\"")
+_N_NUM = re.compile(r"0x[0-9a-fA-F]+|\b\d+\b")
+
+
+def _norm(msg):
+    msg = str(msg).split("\n")[0][:200]
+    for rx, rep in ((_N_ENUMREPR, "E"), (_N_ENUMNAME, "E"), (_N_BRLIST, "[..]"),
+                    (_N_HEXRUN, "H"), (_N_QUOTED, "Q"), (_N_NUM, "N")):
+        msg = rx.sub(rep, msg)
+    return msg
 
 
 _POSITIONAL = ("read_tag", "read_type", "read_length", "is_oversized")
@@ -75,8 +97,7 @@ def _site(exc):
 
 
 def _bucket(phase, exc):
-    msg = core.norm_msg(_TAGREPR.sub("Tags.X", str(exc)))
-    return "|".join([PID, phase, type(exc).__name__, _site(exc), msg])
+    return "|".join([PID, phase, type(exc).__name__, _site(exc), _norm(exc)])
 
 
 # ---------------------------------------------------------------------- comparison helpers
@@ -408,6 +429,19 @@ def mutate(b, op):
     return _enc_node(root)
 
 
+_VERSION_FROM_HEADER = ("RequestMessage", "ResponseMessage", "RequestHeader", "ResponseHeader")
+
+
+def _header_version(obj):
+    hdr = getattr(obj, "request_header", None) or getattr(obj, "response_header", None) or obj
+    pv = getattr(hdr, "protocol_version", None)
+    try:
+        v = (pv.major, pv.minor)
+    except Exception:
+        return None
+    return v if v in T.VERSIONS else None
+
+
 def backward(name, v, data, hint):
     """-> ('rejected'|'accepted'|'skipped', buckets)"""
     try:
@@ -416,6 +450,12 @@ def backward(name, v, data, hint):
         return "rejected", []
     if text_padding_defect_present() and has_text_len_mod8(data):
         return "skipped_textpad", []
+    if name in _VERSION_FROM_HEADER:
+        # read() of headers and messages ignores its kmip_version argument and follows the
+        # protocol version found in the header; a faithful re-encoding uses that version too
+        v = _header_version(y1)
+        if v is None:
+            return "skipped_unknown_header_version", []
     try:
         b2 = T.encode(y1, v)
     except Exception as e:
@@ -460,8 +500,11 @@ def backward(name, v, data, hint):
 # ---------------------------------------------------------------------- case evaluation
 def judge(spec, stats=None):
     """Evaluate one case spec (forward + its mutations). -> list of (key, detail)."""
-    buckets, b = forward(spec)
     name, v = spec["cls"], tuple(spec["v"])
+    if spec.get("raw_only"):
+        buckets, b = [], None       # bytes found by the fuzz stage: backward oracle only
+    else:
+        buckets, b = forward(spec)
     if b is not None:
         for op in spec.get("mut", []):
             data = mutate(b, op)
@@ -591,6 +634,9 @@ def _run_case(col, spec, seen, pool, stats):
         col.bump("cases_satisfying_nontrivial_rule")
     if spec.get("probe"):
         col.bump("probe_cases:" + spec["probe"])
+    elif not spec.get("sweep"):
+        for p in T.ROWS[spec["cls"]].probes:
+            col.exclude("%s: %s" % (p, T.PROBES[p]))
     buckets, b = judge(spec, stats)
     col.record(spec, nontrivial=first, classes=[spec["cls"]], buckets=buckets)
     if b is not None and pool is not None:
@@ -626,11 +672,10 @@ def worker(shard, seed, units, n, n_mut):
             _run_case(col, spec, seen, pool, stats)
         core.draw_examples(_case_strategy(name, v, n_mut), n,
                            core.derive_seed(seed, name, v[0], v[1]), fn)
-        # the bulk generator restricts text leaves to ASCII and Interval to < 2**32 etc.
+        # text leaves of all other rows are ASCII by construction
         if any(isinstance(f.kind, (T.Text, T.AttrName)) for f in row.fields) \
                 and "nonascii" not in row.probes:
-            col.exclude("non-ASCII text (confirmed TextString defect; reached via the "
-                        "TextString row's probe only)", n)
+            col.exclude("nonascii: " + T.PROBES["nonascii"], n)
     for k, val in stats.items():
         col.bump(k, val)
     return col
@@ -677,6 +722,7 @@ def run(ctx):
     n_mut = ctx.n(2, 3)
     shards = _units(jobs)
     args = [(i, ctx.seed, shards[i], n, n_mut) for i in range(jobs)]
+    fuzz = None if ctx.quick else _fuzz_start(ctx)      # runs beside the shards
     dicts = core.run_sharded("vlib.props.c01", "worker", args, jobs=jobs)
     col = core.merged(PID, dicts)
     for r in T.ROWS.values():
@@ -686,4 +732,59 @@ def run(ctx):
             col.classes.setdefault(r.name, 0)
     col.extra["pairs"] = len(T.pairs())
     col.extra["cases_per_pair"] = n
+    if fuzz is not None:
+        _fuzz_collect(fuzz, col)
     return col
+
+
+def _fuzz_start(ctx):
+    """atheris/libFuzzer over the decoders of all message/payload classes with the backward
+    oracle inside the target (vlib/c01_fuzz.py): bounded by -runs, in a subprocess that runs
+    beside the Hypothesis shards.  Running out of the time limit only stops the exploration; a
+    missing atheris skips the stage (never a verdict)."""
+    import tempfile
+    import time
+    runs = int(os.environ.get("VERIF_C01_FUZZ_RUNS", "30000"))
+    out = tempfile.mkdtemp(prefix="c01-fuzz-")
+    cmd = [sys.executable, "-m", "vlib.c01_fuzz", out, str(ctx.seed), str(runs)]
+    log = open(os.path.join(out, "log.txt"), "wb")
+    proc = subprocess.Popen(cmd, stdout=log, stderr=subprocess.STDOUT)
+    return {"proc": proc, "out": out, "log": log, "t0": time.time(), "runs": runs,
+            "limit": int(os.environ.get("VERIF_C01_FUZZ_SECONDS", "1200"))}
+
+
+def _fuzz_collect(fz, col):
+    import json
+    import shutil
+    import time
+    note = "completed"
+    try:
+        rc = fz["proc"].wait(timeout=max(5, fz["limit"] - (time.time() - fz["t0"])))
+        if rc != 0:
+            note = "fuzzer exit %d" % rc
+    except subprocess.TimeoutExpired:
+        fz["proc"].kill()
+        fz["proc"].wait()
+        note = "stopped at the %ds time limit" % fz["limit"]
+    fz["log"].close()
+    path = os.path.join(fz["out"], "findings.json")
+    if not os.path.exists(path):
+        try:
+            with open(os.path.join(fz["out"], "log.txt"), "rb") as f:
+                tail = f.read()[-300:].decode("utf-8", "replace")
+        except OSError:
+            tail = ""
+        col.extra["fuzz_stage"] = "skipped (%s) %s" % (note, tail)
+        shutil.rmtree(fz["out"], ignore_errors=True)
+        return
+    with open(path) as f:
+        data = json.load(f)
+    for key, info in sorted(data["findings"].items()):
+        spec = {"cls": info["cls"], "v": info["v"], "fields": {}, "raw_only": True,
+                "raw": [info["raw"]]}
+        col.add_bucket(key, spec, "found by the fuzz stage: " + info.get("detail", ""))
+    for k, val in data["stats"].items():
+        col.extra["fuzz_" + k] = val
+    col.extra["fuzz_runs_requested"] = fz["runs"]
+    col.extra["fuzz_stage"] = note
+    shutil.rmtree(fz["out"], ignore_errors=True)
